@@ -21,7 +21,9 @@ for f in order:
         m = re.match(r'(C\d+) (DETECTED|MISSED|SILENT|TOOLERR)(.*)', line)
         if m and cur:
             why = re.search(r'why=(\S+)', m.group(3))
-            detect.setdefault(cur, {})[m.group(1)] = {"result": "DETECTED" if m.group(2) == "DETECTED" else m.group(2), "why": why.group(1) if why else "", "run": os.path.basename(f)}
+            prev = detect.get(cur, {}).get(m.group(1), {}).get("history", [])
+            detect.setdefault(cur, {})[m.group(1)] = {"result": "DETECTED" if m.group(2) == "DETECTED" else m.group(2), "why": why.group(1) if why else "", "run": os.path.basename(f),
+                                                      "history": prev + [{"run": os.path.basename(f), "result": m.group(2)}]}
 n = 0
 for (prop, mi), conf in sorted(confirm.items()):
     src = '/tmp/mut%s_%s/m%s' % ('B' if mi[0] == 'b' else '', prop, mi[1:])
